@@ -900,13 +900,18 @@ func mirrors() {
 		// mirrors of its own priority, nobody who should have been asked first is skipped, and the walk ends
 		// at a host that has the content (order among mirrors of equal priority is free)
 		var problems []string
+		kinds := map[string][]string{}
+		note := func(kind, what string) {
+			problems = append(problems, what)
+			kinds[kind] = append(kinds[kind], what)
+		}
 		for k := 0; k+1 < len(order); k++ {
 			a, b := order[k], order[k+1]
 			if prio[a] < prio[b] {
-				problems = append(problems, fmt.Sprintf("%s (priority %d) was tried before %s (priority %d)", a, prio[a], b, prio[b]))
+				note("priority-order", fmt.Sprintf("%s (priority %d) was tried before %s (priority %d)", a, prio[a], b, prio[b]))
 			}
 			if prio[a] == prio[b] && a == "upstream" {
-				problems = append(problems, fmt.Sprintf("the named registry was tried before mirror %s of equal priority", b))
+				note("upstream-not-last-among-equals", fmt.Sprintf("the named registry was tried before mirror %s of equal priority", b))
 			}
 		}
 		if len(order) > 0 {
@@ -915,21 +920,24 @@ func mirrors() {
 				if seen[h] {
 					continue
 				}
-				if prio[h] > prio[last] || (prio[h] == prio[last] && last == "upstream") {
-					problems = append(problems, fmt.Sprintf("%s (priority %d) was never tried although %s (priority %d) was", h, prio[h], last, prio[last]))
+				if prio[h] > prio[last] {
+					note("priority-order", fmt.Sprintf("%s (priority %d) was never tried although %s (priority %d) was", h, prio[h], last, prio[last]))
+				} else if prio[h] == prio[last] && last == "upstream" {
+					note("upstream-not-last-among-equals", fmt.Sprintf("mirror %s was never tried although the named registry, of equal priority (%d), was", h, prio[h]))
 				}
 			}
 		}
-		wit := map[string]any{"priorities": prio, "content": has, "operation": o.name, "observed_first_contacts": order, "problems": problems, "requests": reqList(e.w)}
+		wit := map[string]any{"priorities": prio, "content": has, "operation": o.name, "observed_first_contacts": order, "problems": problems, "requests": reqList(e.w), "registry_configured_under_another_name": e.alias != ""}
 		run.Distinct(fmt.Sprintf("mirror-read/mirrors=%d/%s", nm, strings.Join(order, ">")))
 		if err != nil {
 			run.Violation("mirror-read-fails/"+o.name, fmt.Sprintf("%s failed although a host has the content: %v", o.name, err), wit)
 		} else if len(problems) > 0 {
-			kind := "priority-order"
-			if strings.Contains(problems[0], "equal priority") {
-				kind = "upstream-not-last-among-equals"
+			// one report per kind of problem: an order that is wrong in two ways is two findings
+			for _, kind := range []string{"priority-order", "upstream-not-last-among-equals"} {
+				if ps := kinds[kind]; len(ps) > 0 {
+					run.Violation("mirror-order/"+kind, fmt.Sprintf("hosts were tried in the order %v with priorities %v: %s", order, prio, strings.Join(ps, "; ")), wit)
+				}
 			}
-			run.Violation("mirror-order/"+kind, fmt.Sprintf("hosts were tried in the order %v with priorities %v: %s", order, prio, strings.Join(problems, "; ")), wit)
 		} else {
 			run.Count("mirror_read_orders_correct", 1)
 		}
